@@ -1454,6 +1454,40 @@ fn datetimes(ctx: &Ctx, rep: &Report) {
                                 loc.violation(&format!("C07/{}/operator-differs-from-checked-form", if sub { "NaiveDateTime-TimeDelta" } else { "NaiveDateTime+TimeDelta" }), json!({"day": day, "time": t.json(), "duration_ns": dn.to_string()}));
                             }
                         }
+                        // the assigning forms and the std::time::Duration forms are the same operation
+                        let mut family: Vec<(&'static str, NaiveDateTime)> = Vec::new();
+                        if let Some(v) = loc.call(if sub { "NaiveDateTime-=TimeDelta" } else { "NaiveDateTime+=TimeDelta" }, inp, || {
+                            let mut x = dt;
+                            if sub {
+                                x -= d
+                            } else {
+                                x += d
+                            }
+                            x
+                        }) {
+                            family.push((if sub { "NaiveDateTime-=TimeDelta" } else { "NaiveDateTime+=TimeDelta" }, v));
+                        }
+                        if let Ok(sd) = d.to_std() {
+                            if let Some(v) = loc.call(if sub { "NaiveDateTime-std::Duration" } else { "NaiveDateTime+std::Duration" }, inp, || if sub { dt - sd } else { dt + sd }) {
+                                family.push((if sub { "NaiveDateTime-std::Duration" } else { "NaiveDateTime+std::Duration" }, v));
+                            }
+                            if let Some(v) = loc.call(if sub { "NaiveDateTime-=std::Duration" } else { "NaiveDateTime+=std::Duration" }, inp, || {
+                                let mut x = dt;
+                                if sub {
+                                    x -= sd
+                                } else {
+                                    x += sd
+                                }
+                                x
+                            }) {
+                                family.push((if sub { "NaiveDateTime-=std::Duration" } else { "NaiveDateTime+=std::Duration" }, v));
+                            }
+                        }
+                        for (name, v) in family {
+                            if v != g {
+                                loc.violation(&format!("C07/{}/operator-differs-from-checked-form", name), json!({"day": day, "time": t.json(), "duration_ns": dn.to_string()}));
+                            }
+                        }
                     }
                 }
             }
